@@ -130,7 +130,8 @@ class LazyUniform:
     def _below(self, t):
         """True iff value < t (choice point when t is strictly inside)."""
         try:
-            t = float(t)
+            if not isinstance(t, Fraction):  # exact thresholds (from LazyAffine) are kept exact
+                t = float(t)
         except Exception as e:  # pragma: no cover
             raise UncontrolledRandomness(f"lazy uniform compared with {t!r}") from e
         if t != t:
@@ -154,7 +155,7 @@ class LazyUniform:
             pbq = pbq / (Fraction(self.hi) - Fraction(self.lo))
         except Exception:
             pbq = pb
-        c = CH.choose(2, (pbq, 1 - pbq), label="uniform<%.6g" % t)
+        c = CH.choose(2, (pbq, 1 - pbq), label="uniform<%.6g" % float(t))
         if c == 0:
             self.hi = t
             CH.note(("u<", t))
@@ -178,13 +179,127 @@ class LazyUniform:
     def _no(self, *a, **k):
         raise UncontrolledRandomness("arithmetic on a lazy uniform variate")
 
-    __add__ = __radd__ = __sub__ = __rsub__ = __mul__ = __rmul__ = _no
-    __truediv__ = __rtruediv__ = __float__ = __int__ = __pow__ = _no
+    # positive affine images a*u + b stay lazy (see LazyAffine): `int(random() * n)` is a uniform integer choice
+    def __mul__(self, k):
+        return LazyAffine(self, 1, 0) * k
+
+    __rmul__ = __mul__
+
+    def __truediv__(self, k):
+        return LazyAffine(self, 1, 0) / k
+
+    def __add__(self, k):
+        return LazyAffine(self, 1, 0) + k
+
+    __radd__ = __add__
+
+    def __sub__(self, k):
+        return LazyAffine(self, 1, 0) - k
+
+    def __int__(self):
+        return int(LazyAffine(self, 1, 0))
+
+    __trunc__ = __int__
+
+    def __floor__(self):
+        return LazyAffine(self, 1, 0).__floor__()
+
+    __rsub__ = __rtruediv__ = __float__ = __pow__ = _no
     __eq__ = _no
     __hash__ = None
 
     def __repr__(self):
         return f"LazyUniform[{self.lo},{self.hi})"
+
+
+class LazyAffine:
+    """a*u + b for a lazy uniform u and exact numbers a > 0, b.
+
+    Comparisons are forwarded to u (exactly, in rationals); taking the integer part is a choice point over the integer
+    cells the image interval meets, each with its exact conditional probability, and refines u to that cell.
+    """
+
+    __slots__ = ("u", "a", "b")
+    MAX_CELLS = 64
+
+    def __init__(self, u, a, b):
+        self.u, self.a, self.b = u, Fraction(a), Fraction(b)
+
+    @staticmethod
+    def _num(k):
+        if isinstance(k, bool) or not isinstance(k, (int, float, Fraction)) and not hasattr(k, "__float__"):
+            raise UncontrolledRandomness(f"arithmetic on a lazy uniform variate with {k!r}")
+        if isinstance(k, (LazyUniform, LazyAffine)):
+            raise UncontrolledRandomness("arithmetic between two lazy uniform variates")
+        k = Fraction(k) if isinstance(k, (int, Fraction)) else Fraction(float(k))
+        return k
+
+    def __mul__(self, k):
+        k = self._num(k)
+        if k <= 0:
+            raise UncontrolledRandomness("lazy uniform variate scaled by a non-positive number")
+        return LazyAffine(self.u, self.a * k, self.b * k)
+
+    __rmul__ = __mul__
+
+    def __truediv__(self, k):
+        k = self._num(k)
+        if k <= 0:
+            raise UncontrolledRandomness("lazy uniform variate divided by a non-positive number")
+        return LazyAffine(self.u, self.a / k, self.b / k)
+
+    def __add__(self, k):
+        return LazyAffine(self.u, self.a, self.b + self._num(k))
+
+    __radd__ = __add__
+
+    def __sub__(self, k):
+        return LazyAffine(self.u, self.a, self.b - self._num(k))
+
+    def _thr(self, t):
+        # a*u + b < t  <=>  u < (t - b)/a, kept as an exact rational
+        return (Fraction(float(t)) - self.b) / self.a
+
+    def __lt__(self, t):
+        return self.u._below(self._thr(t))
+
+    __le__ = __lt__
+
+    def __gt__(self, t):
+        return not self.u._below(self._thr(t))
+
+    __ge__ = __gt__
+
+    def __floor__(self):
+        lo = self.a * Fraction(self.u.lo) + self.b
+        hi = self.a * Fraction(self.u.hi) + self.b
+        first = lo.numerator // lo.denominator
+        last = -((-hi.numerator) // hi.denominator) - 1  # largest integer strictly below hi
+        if last < first:
+            last = first
+        if last - first + 1 > self.MAX_CELLS:
+            raise UncontrolledRandomness(f"integer part of a lazy uniform variate over {last - first + 1} cells")
+        for k in range(first, last):
+            if self.__lt__(k + 1):
+                return k
+        return last
+
+    def __int__(self):
+        lo = self.a * Fraction(self.u.lo) + self.b
+        if lo < 0:
+            raise UncontrolledRandomness("int() of a lazy uniform variate that may be negative")
+        return self.__floor__()
+
+    __trunc__ = __int__
+
+    def _no(self, *a, **k):
+        raise UncontrolledRandomness("arithmetic on a lazy uniform variate")
+
+    __rsub__ = __rtruediv__ = __float__ = __pow__ = __eq__ = _no
+    __hash__ = None
+
+    def __repr__(self):
+        return f"LazyAffine({self.a}*{self.u!r}+{self.b})"
 
 
 # ------------------------------------------------------------------------------------
